@@ -1,11 +1,12 @@
 package checks
 
 import (
-	"os"
 	"fmt"
 	"math"
+	"os"
 	"sort"
 	"strings"
+	"time"
 
 	corev1 "k8s.io/api/core/v1"
 
@@ -57,12 +58,14 @@ var c06Loads = []c06Load{
 }
 
 type c06Case struct {
-	catalog  string
-	kinds    []c06NodeKind
-	loads    []int
-	policy   v1.ConsolidationPolicy
-	spot2    bool
-	minVals  bool
+	catalog string
+	kinds   []c06NodeKind
+	loads   []int
+	policy  v1.ConsolidationPolicy
+	spot2   bool
+	minVals bool
+	// latePod: during the 15 s validation delay kube-scheduler binds one more pod (1500m) to node n0
+	latePod bool
 }
 
 func (c c06Case) String() string {
@@ -70,7 +73,7 @@ func (c c06Case) String() string {
 	for i, k := range c.kinds {
 		ns = append(ns, fmt.Sprintf("%s[%s]", k.name, c06Loads[c.loads[i]].name))
 	}
-	return fmt.Sprintf("catalog=%s nodes=%v policy=%s spotToSpot=%v minValues=%v", c.catalog, ns, c.policy, c.spot2, c.minVals)
+	return fmt.Sprintf("catalog=%s nodes=%v policy=%s spotToSpot=%v minValues=%v latePod=%v", c.catalog, ns, c.policy, c.spot2, c.minVals, c.latePod)
 }
 
 // zonalCatalog(pos): seven on-demand types of one size in two zones; five cheap ones (0.10 .. 0.50 in zone a, +0.02 in
@@ -152,7 +155,7 @@ func worstLaunch(launches []struct {
 	return math.MaxFloat64
 }
 
-func (c c06Case) judge(env *DEnv, cmds []*disruptionCommand) (viol []c01Violation, nontrivial bool) {
+func (c c06Case) judge(env *DEnv, cmds []*disruptionCommand, late *corev1.Pod) (viol []c01Violation, nontrivial bool) {
 	w := env.W
 	cat := c06Catalog(c.catalog)
 	senv := &SchedEnv{W: w, Catalog: cat, Volumes: map[string][]oracle.Volume{}, Case: SchedCase{}}
@@ -330,6 +333,63 @@ func (c c06Case) judge(env *DEnv, cmds []*disruptionCommand) (viol []c01Violatio
 				}
 			}
 		}
+		// (1b) a pod that kube-scheduler bound to a removed node DURING the validation delay is a reschedulable pod of that
+		// node like any other: it needs a feasible home next to everything the command places
+		if late != nil && isCand[late.Spec.NodeName] && placed[late.Name] == "" {
+			home := false
+			for _, rep := range cmd.Replacements {
+				nc := w.GetNodeClaim(rep.Name)
+				if nc == nil {
+					continue
+				}
+				pods := []*corev1.Pod{late}
+				for _, p := range rep.NodeClaim.Pods {
+					if o := env.Pods[p.Name]; o != nil {
+						pods = append(pods, o)
+					}
+				}
+				if len(senv.judgeNewNodeClaim(nc, pods)) == 0 && len(senv.launchesFor(nc)) > 0 {
+					home = true
+				}
+			}
+			for i := range c.kinds {
+				name := fmt.Sprintf("n%d", i)
+				if isCand[name] || home {
+					continue
+				}
+				k := c.kinds[i]
+				t := pickType(cat, k.typ)
+				var ofr world.OfSpec
+				for _, o := range t.Offers {
+					if o.Zone == k.zone && o.CT == k.ct {
+						ofr = o
+					}
+				}
+				labels := world.LaunchLabels(t, ofr)
+				labels[v1.NodePoolLabelKey] = "default"
+				labels[corev1.LabelHostname] = name
+				var there []*corev1.Pod
+				for _, dp := range c06Loads[c.loads[i]].pods(name) {
+					there = append(there, env.Pods[dp.name])
+				}
+				for _, en := range cmd.Results.ExistingNodes {
+					if en.Name() == name {
+						for _, p := range en.Pods {
+							if o := env.Pods[p.Name]; o != nil {
+								there = append(there, o)
+							}
+						}
+					}
+				}
+				view := oracle.NodeView{Name: name, Labels: labels, AllocCPUm: t.AllocCPUm(ofr), AllocMem: t.AllocMem(), AllocPods: int64(t.Pods), AllocExt: map[string]int64{}, Pods: there}
+				if len(oracle.Admit(late, view)) == 0 {
+					home = true
+				}
+			}
+			if !home {
+				viol = append(viol, c01Violation{"reschedulable pod of a removed node has no home (pod bound during the validation delay)", fmt.Sprintf("pod %s was bound to candidate %s during the validation delay; the accepted command %s leaves it no feasible home next to what it places", late.Name, late.Spec.NodeName, cmdString(cmd))})
+			}
+		}
 	}
 	return viol, nontrivial
 }
@@ -365,6 +425,10 @@ func init() {
 							cases = append(cases, c06Case{catalog: catalog, kinds: ks, loads: ls, policy: pol, spot2: s2})
 						}
 					}
+					if catalog == "K1" && size <= 2 {
+						// the same cluster with a pod landing on n0 during the validation delay
+						cases = append(cases, c06Case{catalog: catalog, kinds: ks, loads: ls, policy: v1.ConsolidationPolicyWhenEmptyOrUnderutilized, latePod: true})
+					}
 				}
 			}
 		}
@@ -389,7 +453,7 @@ func init() {
 				cases = append(cases, c06Case{catalog: "ladder", kinds: []c06NodeKind{k}, loads: []int{1}, policy: v1.ConsolidationPolicyWhenEmptyOrUnderutilized, spot2: s2, minVals: true})
 			}
 		}
-		r.Rule = fmt.Sprintf("%d clusters: multisets of 1-3 nodes over (instance type, zone, capacity type) kinds of catalogs K1/K2, a 17-step spot price ladder and five catalogs with a zone-specific price (a type cheap in one zone and dear in the other, at each position of the price-ordered list) x per-node loads {%s} x policy {WhenEmptyOrUnderutilized, Balanced} x SpotToSpot gate {off,on} (+ minValues variants); the real disruption controller runs Emptiness, MultiNode and SingleNode consolidation (validation delay elapsed) and the accepted commands are judged: every reschedulable pod of the removed nodes has a home on a remaining initialized node or the single replacement and passes the admission oracle there; every instance type the created replacement NodeClaim lists has a worst-case launch price (reserved > spot > on-demand) strictly below the candidates' combined price; no on-demand fallback at >= that price when a candidate is on-demand; spot-to-spot only with the gate on and, single-node, with >=15 options truncated to 15; nodes deleted as empty host no reschedulable pod with positive eviction cost. non-trivial = distinct case with a consolidation (non-Empty) command", len(cases), loadNames())
+		r.Rule = fmt.Sprintf("%d clusters: multisets of 1-3 nodes over (instance type, zone, capacity type) kinds of catalogs K1/K2, a 17-step spot price ladder and five catalogs with a zone-specific price (a type cheap in one zone and dear in the other, at each position of the price-ordered list) x per-node loads {%s} x policy {WhenEmptyOrUnderutilized, Balanced} x SpotToSpot gate {off,on} (+ minValues variants, + the K1 clusters again with a 1500m pod that kube-scheduler binds to the first node DURING the 15 s validation delay); the real disruption controller runs Emptiness, MultiNode and SingleNode consolidation (validation delay elapsed) and the accepted commands are judged: every reschedulable pod of the removed nodes has a home on a remaining initialized node or the single replacement and passes the admission oracle there; every instance type the created replacement NodeClaim lists has a worst-case launch price (reserved > spot > on-demand) strictly below the candidates' combined price; no on-demand fallback at >= that price when a candidate is on-demand; spot-to-spot only with the gate on and, single-node, with >=15 options truncated to 15; nodes deleted as empty host no reschedulable pod with positive eviction cost. non-trivial = distinct case with a consolidation (non-Empty) command", len(cases), loadNames())
 		r.Assumptions = []string{"prices come from the harness's catalog description", "every candidate subset the search visits is visited by the real code; only accepted commands are judged"}
 		enum.Run(r, int64(len(cases)), func(idx int64, l *ev.Local) {
 			c := cases[idx]
@@ -398,9 +462,33 @@ func init() {
 			}
 			env := buildDisrupt(c.world())
 			if os.Getenv("C06_ONLY") != "" {
-				defer func() { fmt.Println("C06 case:", c.String(), "\n  calls:", strings.Join(callStrings(env.W), "\n         ")) }()
+				defer func() {
+					fmt.Println("C06 case:", c.String(), "\n  calls:", strings.Join(callStrings(env.W), "\n         "))
+				}()
 			}
 			var all []*disruptionCommand
+			var late *corev1.Pod
+			if c.latePod {
+				w := env.W
+				w.Clock.OnWait = func(dd time.Duration) {
+					if late != nil || dd < 10*time.Second || w.GetNode("n0") == nil {
+						return
+					}
+					// kube-scheduler binds a pod to n0 only if it fits there
+					t := pickType(c06Catalog(c.catalog), c.kinds[0].typ)
+					var used int64
+					for _, dp := range c06Loads[c.loads[0]].pods("n0") {
+						used += dp.cpu
+					}
+					if t.AllocCPUm(t.Offers[0])-used < 1500 {
+						return
+					}
+					late = world.Pod("late", 1500, world.Bound("n0"))
+					w.Add(late)
+					env.Pods["late"] = late
+					w.SyncCluster()
+				}
+			}
 			for round := 0; round < 2; round++ {
 				cmds, err := env.round("Emptiness", "MultiNodeConsolidation", "SingleNodeConsolidation")
 				l.Eval()
@@ -411,7 +499,7 @@ func init() {
 					break
 				}
 				all = append(all, cmds...)
-				viol, nt := c.judge(env, cmds)
+				viol, nt := c.judge(env, cmds, late)
 				if nt {
 					l.NontrivialH(ev.H(fmt.Sprintf("c06/%d/%d", idx, round)))
 				}
